@@ -137,7 +137,7 @@ class SigmaCorrelationCondition:
                 cond_op = SigmaCorrelationConditionOperator[op.upper()]
                 try:
                     cond_count = int(d[op])
-                except (ValueError, TypeError):
+                except (ValueError, TypeError, OverflowError):
                     raise sigma_exceptions.SigmaCorrelationConditionError(
                         f"'{ d[op] }' is no valid Sigma correlation condition count", source=source
                     )
@@ -154,7 +154,7 @@ class SigmaCorrelationCondition:
             cond_percentile = int(d["percentile"])
         except KeyError:
             cond_percentile = None
-        except (ValueError, TypeError):
+        except (ValueError, TypeError, OverflowError):
             raise sigma_exceptions.SigmaCorrelationConditionError(
                 f"'{ d['percentile'] }' is no valid Sigma correlation condition percentile",
                 source=source,
